@@ -54,6 +54,13 @@ func CheckThesaurus(r *Report, tag string, seg segment.Segment, m *model.Seg, o 
 			unknown = append(unknown, f)
 		}
 	}
+	// every lookup key travels in one buffer that is overwritten for the next lookup
+	// (a caller's scratch key): nothing may depend on the key after the call returned
+	keyBuf := make([]byte, 0, 64)
+	key := func(s string) []byte {
+		keyBuf = append(keyBuf[:0], s...)
+		return keyBuf
+	}
 	var sl, slHit segment.SynonymsList // latest list; latest list that came from a successful lookup
 	var si, siHit segment.SynonymsIterator
 	for _, name := range append(names, unknown...) {
@@ -133,7 +140,8 @@ func CheckThesaurus(r *Report, tag string, seg segment.Segment, m *model.Seg, o 
 					}
 					r.Inc("thes_prealloc_reuse", 1)
 				}
-				l, err := th.SynonymsList([]byte(term), bm, preL)
+				l, err := th.SynonymsList(key(term), bm, preL)
+				r.Inc("syn_lookups_through_a_reused_key_buffer", 1)
 				if err != nil || l == nil {
 					r.Fail("thes-list-err", "%s: SynonymsList(%q): %v", where, term, err)
 					continue
